@@ -94,6 +94,56 @@ class LazyFloor:
         return acc
 
 
+# --- value tags -------------------------------------------------------------------------------
+# In tagging mode every symbolic real produced by a max-reduction is wrapped as vtag(k, e) with a
+# unique k.  The tag is the identity (it is stripped before any solver call / evaluation); it only
+# makes the entries of a value array syntactically unique, so that the inductive decomposition of
+# the pipeline checks can replace "V_next[i]" by a fresh constant without ever touching a
+# coincidentally equal sub-term (e.g. a utility expression).
+TAGGING = [False]
+_TAGN = [0]
+VTAG = z3.Function("vtag", z3.IntSort(), z3.RealSort(), z3.RealSort())
+
+
+def tag(v):
+    if not TAGGING[0]:
+        return v
+    if isinstance(v, XR):
+        return XR(v.ninf, tag(v.val))
+    if isinstance(v, z3.ExprRef) and z3.is_real(v) and v.num_args() > 0:
+        _TAGN[0] += 1
+        return VTAG(z3.IntVal(_TAGN[0]), v)
+    return v
+
+
+def strip_tags(term):
+    """remove all vtag(k, .) wrappers (identity semantics)"""
+    if isinstance(term, XR):
+        return XR(strip_tags(term.ninf), strip_tags(term.val))
+    if not isinstance(term, z3.ExprRef):
+        return term
+    memo = {}
+
+    def rw(e):
+        i = e.get_id()
+        if i in memo:
+            return memo[i]
+        if e.num_args() == 0:
+            r = e
+        elif z3.is_app(e) and e.decl().name() == "vtag" and e.num_args() == 2:
+            r = rw(e.arg(1))
+        else:
+            ch = [rw(c) for c in e.children()]
+            r = e if all(a.get_id() == b.get_id() for a, b in zip(ch, e.children())) else e.decl()(*ch)
+        memo[i] = r
+        return r
+
+    import sys as _s
+
+    _s.setrecursionlimit(max(_s.getrecursionlimit(), 20000))
+    return rw(term)
+
+
 AMBIENT: list = []  # harness assumptions; used only to drop impossible -inf flags (simplify_x)
 FLOOR_RANGE = [None]  # optional (lo, hi) for unclipped floors, see LazyFloor.mat
 CELL_ATOMS: list = []  # atoms `x < k+1` created when a clipped floor is materialised
@@ -1005,6 +1055,8 @@ def _reduce(name, f, init):
                 for v in vals[1:]:
                     acc = f(acc, v)
                 out[idx] = simplify_x(force(acc))
+                if name == "reduce_max":
+                    out[idx] = tag(out[idx])
         return (out, None)
 
     return r
@@ -1125,7 +1177,7 @@ def _gather(trace, args, avals, params, prim):
     return (out, core.ShapedArray(tuple(out_shape), avals[0].dtype))
 
 
-def _scatter(combine):
+def _scatter(combine, tagged=False):
     def r(trace, args, avals, params, prim):
         operand = to_obj(args[0]).copy()
         indices = to_obj(args[1])
@@ -1148,12 +1200,16 @@ def _scatter(combine):
                 operand[seg] = combine(operand[seg], upd)
             else:
                 operand[seg] = np.asarray(vec(combine)(operand[seg], upd), dtype=object)
+        if tagged and np.dtype(avals[0].dtype).kind == "f":
+            flat = operand.reshape(-1)
+            for i in range(flat.size):
+                flat[i] = tag(simplify_x(force(flat[i])))
         return (operand, avals[0])
 
     return r
 
 
-RULES["scatter-max"] = RULES["scatter_max"] = _scatter(s_max)
+RULES["scatter-max"] = RULES["scatter_max"] = _scatter(s_max, tagged=True)
 RULES["scatter-min"] = RULES["scatter_min"] = _scatter(s_min)
 RULES["scatter-add"] = RULES["scatter_add"] = _scatter(lambda a, b: _arith("add", a, b))
 RULES["scatter"] = _scatter(lambda a, b: b)
@@ -1638,7 +1694,7 @@ def x_eq(a, b):
 def evaluate(term, assignment):
     """evaluate a scalar (maybe XR) under {z3 const -> python/Fraction value}; returns
     python value (-inf possible)"""
-    term = force(term)
+    term = strip_tags(force(term))
     if isinstance(term, XR):
         n = evaluate(term.ninf, assignment)
         if n:
@@ -1704,7 +1760,7 @@ def free_consts(term, acc=None, seen=None):
 
 def eval_float(term, assignment):
     """numeric evaluation of a term (exp/log interpreted by libm) under {name: value}"""
-    term = force(term)
+    term = strip_tags(force(term))
     if isinstance(term, XR):
         if eval_float(term.ninf, assignment):
             return NINF
